@@ -230,6 +230,10 @@ where
     let nobj = size + 2;
     let count = file.num_pages();
     o.put(|| "num_pages".into(), || count.to_string());
+    match file.version() {
+        Ok(v) => o.put(|| "version".into(), || v.clone()),
+        Err(e) => o.err(|| "version".into(), &e),
+    }
     o.put(|| "trailer".into(), || format!("size={} id={:?} info={}", file.trailer.size, file.trailer.id.iter().map(|s| bytes_s(s.as_bytes())).collect::<Vec<_>>(), file.trailer.info_dict.as_ref().map(|i| format!("{:?}", i.title.as_ref().map(|t| t.to_string_lossy()))).unwrap_or_default()));
     let mut idx: Vec<u32> = (0..count.min(nobj as u32)).collect();
     // (the last two indices of the 32-bit range: sums of subtree counts are compared against them)
